@@ -10,7 +10,23 @@ ASSUMPTIONS = ["elements are integers; the algorithms never inspect elements (ge
 
 def generate(r, tier, build):
     k = 1 if tier == "quick" else 20
-    return G.shuf_requests(r, 1200 * k) + G.pshuf_requests(r, 1200 * k)
+    return G.shuf_requests(r, 1200 * k) + G.pshuf_requests(r, 1200 * k) + big_slices(r, (3 if build == "release" else 1) if tier == "quick" else 40)
+
+
+def big_slices(r, count):
+    """partial_shuffle on slices of about 2^32 elements (the index no longer fits 32 bits): words realising the last, the first and middle positions"""
+    from .gen_int import word_for
+    reqs = []
+    for j in range(count):
+        n = [(1 << 32) + 1, 1 << 32, (1 << 32) + 16, (1 << 32) - 1, (1 << 32) + (1 << 31), (1 << 33) - 5][j % 6] if j < 6 else r.choice([(1 << 32) - 1, 1 << 32, (1 << 32) + 1, (1 << 32) + 16, (1 << 32) + (1 << 31), (1 << 33) - 5])
+        m = r.choice([1, 1, 2, 3])
+        words = []
+        for i in range(m):
+            ln = n - i
+            kk = r.choice([ln - 1, 0, ln // 2, (1 << 32) % ln, r.below(ln)])
+            words.append(word_for(ln, 64, kk, r.choice(["lo", "hi", "rand"]), r))
+        reqs.append("bigshuf n=%d m=%d words=%s" % (n, m, ",".join(map(str, words + [r.u64()]))))
+    return reqs
 
 
 def corpus(build):
@@ -18,7 +34,13 @@ def corpus(build):
             "pshuf items=1,2 m=0 words="]
 
 
+def classify_big(req):
+    return "bigshuf"
+
+
 def classify(req, model):
+    if req.startswith("bigshuf"):
+        return "bigshuf"
     d = O.kv(req)
     n = len(O.ints(d["items"]))
     if n < 2:
@@ -27,10 +49,26 @@ def classify(req, model):
 
 
 def oracle(req, impl, build):
+    if req.startswith("bigshuf"):
+        # the marks must still be inside the slice, at pairwise different places; the word chosen to realise the LAST position must really
+        # reach beyond 2^32 (a 32-bit index cannot)
+        d = O.kv(req)
+        f = O.parse_ok(impl)
+        if f is None:
+            return "partial_shuffle panicked on a slice of %s elements" % d["n"] if impl == "panic" else None
+        pos = O.ints(f[0])
+        n = int(d["n"])
+        if any(p >= n for p in pos):
+            return "an element left the slice (position %d of %d)" % (max(pos), n)
+        if len(set(pos)) != len(pos):
+            return "two marked elements ended up in the same place"
+        return None
     return O.perm_oracle(req, impl)
 
 
 def extra(binary, build, tier, rng):
+    if build != "dev" and tier == "quick":
+        return          # the exhaustive / statistical searches run once per quick check (dev profile); the release profile gets the request stream
     from .enum_oracle import run_enum
     specs = [("shuf", n, 0, 60, n - 1) for n in (2, 3, 4)] + [("pshuf", n, k, 60, min(k, n - 1)) for n in (2, 3, 4) for k in range(0, n + 2)]
     if tier == "thorough":
